@@ -377,12 +377,15 @@ pub fn run_one(cfg: &Cfg, prefix: &[usize]) -> Result<Outcome<RunResult>, String
         Some(Val::U32(x)) => x,
         _ => 0,
     };
-    let alive_at_publisher = !w.state.get().verif_subscriptions().verif_state().0.is_empty();
+    // a subscription whose report is under way at the horizon is out of the table for the duration of
+    // that report: it is alive, and what the subscriber has been told so far is not final
+    let (rows, _, _, reporting_at_horizon) = w.state.get().verif_subscriptions().verif_state();
+    let alive_at_publisher = !rows.is_empty() || reporting_at_horizon;
     let told: Vec<u32> = sub.reports.iter().filter_map(|r| r.1).collect();
     let kind = if cfg.filler > 0 { "chunked-priming" } else { "single-chunk-priming" };
     match &sub.subscribed {
         Some(Ok(())) => {
-            if alive_at_publisher && told.last() != Some(&final_value) {
+            if alive_at_publisher && !reporting_at_horizon && told.last() != Some(&final_value) {
                 v.push((format!("C13:wire:{}:subscriber-never-told-the-final-value", kind), format!("the publisher still holds the subscription at the horizon ({} s after the last change), the attribute is {}, the subscriber was told {:?}", (vclock::now().saturating_sub(last_write_at)) / 1_000_000, final_value, told)));
             }
             if !alive_at_publisher && !lossy {
@@ -470,7 +473,7 @@ pub fn explore(tier: Tier) -> Result<(Report, u64, usize, usize, bool), String> 
         let cls = std::sync::Mutex::new(std::collections::BTreeSet::new());
         let stats = e1::explore(
             bound,
-            if tier == Tier::Quick { 80_000 } else { 1_500_000 },
+            std::env::var("MC_C13W_CAP").ok().and_then(|v| v.parse().ok()).unwrap_or(if tier == Tier::Quick { 300_000 } else { 3_000_000 }),
             64,
             |prefix| match common::catch(|| run_one(&cfg, prefix)) {
                 Ok(r) => r,
@@ -497,6 +500,9 @@ pub fn explore(tier: Tier) -> Result<(Report, u64, usize, usize, bool), String> 
         execs += stats.executions;
         outcomes += stats.distinct_outcomes;
         capped |= stats.capped;
+        if std::env::var_os("MC_C13W_CAP").is_some() {
+            eprintln!("c13w {:?}: executions {} capped {}", cfg, stats.executions, stats.capped);
+        }
         classes.extend(cls.into_inner().unwrap());
     }
     Ok((report, execs, outcomes, classes.len(), capped))
